@@ -383,6 +383,47 @@ func (c *Ctx) limitChecked(f *ssa.Function, at ssa.Instruction, tx ssa.Value, ch
 			}
 		}
 		if !found {
+			// the check may live in a helper that is handed what was read here (fill.hasRoomFor(n, limits))
+			for _, cs := range engine.Calls(f) {
+				h := cs.Common().StaticCallee()
+				if h == nil || len(h.Blocks) == 0 || !c.P.IsOwn(h) || !engine.InstrDominates(cs.Instr, at) {
+					continue
+				}
+				fed := false
+				for _, hc := range engine.Calls(h) {
+					if hc.Instr.Parent() != h || !isLimitCheck(hc, chk) {
+						continue
+					}
+					for _, x := range arithLeaves(hc.Common().Args[1]) {
+						if ix := paramRootIndex(h, x); ix >= 0 && ix < len(cs.Common().Args) && c.readDerived(cs.Common().Args[ix], read, tx, 2) {
+							fed = true
+						}
+					}
+				}
+				if !fed {
+					continue
+				}
+				inLoopOnly := false
+				for _, hb := range f.Blocks {
+					body := engine.LoopBody(hb)
+					if body != nil && body[at.Block()] && !body[cs.Instr.Block()] {
+						inLoopOnly = true
+					}
+				}
+				if !inLoopOnly {
+					found = true
+				} else if bp := helperBatchParamDirect(h, chk); bp >= 0 {
+					if a := engine.ArgForParam(cs.Common(), h, bp); a != nil {
+						for _, x := range arithLeaves(a) {
+							if _, ok := engine.IsBuiltinCall(x, "len"); ok {
+								found = true
+							}
+						}
+					}
+				}
+			}
+		}
+		if !found {
 			missing = append(missing, chk)
 		}
 	}
@@ -565,6 +606,27 @@ func (c *Ctx) helperChecks(g *ssa.Function, tx *ssa.Parameter, chk, read string)
 			}
 		}
 	}
+	// the check may be made by a helper of g that is handed what g read (a struct filled from `read`, a method on it)
+	for _, cs := range engine.Calls(g) {
+		h := cs.Common().StaticCallee()
+		if cs.Instr.Parent() != g || h == nil || h == g || len(h.Blocks) == 0 || !c.P.IsOwn(h) {
+			continue
+		}
+		for _, hc := range engine.Calls(h) {
+			if hc.Instr.Parent() != h || !isLimitCheck(hc, chk) {
+				continue
+			}
+			for _, x := range arithLeaves(hc.Common().Args[1]) {
+				ix := paramRootIndex(h, x)
+				if ix < 0 || ix >= len(cs.Common().Args) {
+					continue
+				}
+				if c.readDerived(cs.Common().Args[ix], read, tx, 2) {
+					cut[cs.Instr] = true
+				}
+			}
+		}
+	}
 	if len(cut) == 0 {
 		return false
 	}
@@ -580,9 +642,131 @@ func (c *Ctx) helperChecks(g *ssa.Function, tx *ssa.Parameter, chk, read string)
 	return true
 }
 
+// paramRootIndex: x is a parameter of h, or a field read of one (p.f, also through the cell a struct parameter is
+// spilled into): the index of that parameter, else -1.
+func paramRootIndex(h *ssa.Function, x ssa.Value) int {
+	v := x
+	for i := 0; i < 8; i++ {
+		switch t := v.(type) {
+		case *ssa.Parameter:
+			if t.Parent() == h {
+				return engine.ParamIndex(h, t)
+			}
+			return -1
+		case *ssa.Field:
+			v = t.X
+		case *ssa.FieldAddr:
+			v = t.X
+		case *ssa.UnOp:
+			v = t.X
+		case *ssa.Alloc:
+			sts := engine.StoresTo(t)
+			if len(sts) != 1 {
+				return -1
+			}
+			v = sts[0].Val
+		default:
+			return -1
+		}
+	}
+	return -1
+}
+
+// readDerived: v is (a field of / an element of the result of) a call of `read` on tx, or of a helper of gluon that is
+// handed tx and makes that call on it.
+func (c *Ctx) readDerived(v ssa.Value, read string, tx ssa.Value, depth int) bool {
+	for i := 0; i < 8; i++ {
+		switch t := v.(type) {
+		case *ssa.Extract:
+			v = t.Tuple
+			continue
+		case *ssa.Field:
+			v = t.X
+			continue
+		case *ssa.FieldAddr:
+			v = t.X
+			continue
+		case *ssa.UnOp:
+			if al, ok := t.X.(*ssa.Alloc); ok {
+				if sts := engine.StoresTo(al); len(sts) == 1 {
+					v = sts[0].Val
+					continue
+				}
+			}
+			v = t.X
+			continue
+		}
+		break
+	}
+	if isReadOn(v, read, tx) {
+		return true
+	}
+	if al, ok := v.(*ssa.Alloc); ok && depth > 0 && al.Referrers() != nil {
+		// a struct filled in place: one of its fields is stored what was read
+		for _, r := range *al.Referrers() {
+			if fa, ok := r.(*ssa.FieldAddr); ok && fa.Referrers() != nil {
+				for _, r2 := range *fa.Referrers() {
+					if st, ok := r2.(*ssa.Store); ok && st.Addr == ssa.Value(fa) && c.readDerived(st.Val, read, tx, depth-1) {
+						return true
+					}
+				}
+			}
+		}
+		return false
+	}
+	call, ok := v.(*ssa.Call)
+	if !ok || depth <= 0 {
+		return false
+	}
+	r := call.Call.StaticCallee()
+	if r == nil || len(r.Blocks) == 0 || !c.P.IsOwn(r) {
+		return false
+	}
+	for i, a := range call.Call.Args {
+		if txOrigin(a) != tx || i >= len(r.Params) {
+			continue
+		}
+		for _, rc := range engine.Calls(r) {
+			if rc.Instr.Parent() == r {
+				if rv, isVal := rc.Instr.(*ssa.Call); isVal && isReadOn(rv, read, r.Params[i]) {
+					return true
+				}
+			}
+		}
+	}
+	return false
+}
+
 // helperBatchParam: index of the parameter of g that is the "how many more" argument of its limit check
 // (-1 if it is not a parameter).
 func helperBatchParam(g *ssa.Function, chk string) int {
+	if ix := helperBatchParamDirect(g, chk); ix >= 0 {
+		return ix
+	}
+	// the check sits one helper further down: follow the argument that becomes its batch parameter
+	for _, cs := range engine.Calls(g) {
+		h := cs.Common().StaticCallee()
+		if cs.Instr.Parent() != g || h == nil || h == g || len(h.Blocks) == 0 {
+			continue
+		}
+		bp := helperBatchParamDirect(h, chk)
+		if bp < 0 {
+			continue
+		}
+		a := engine.ArgForParam(cs.Common(), h, bp)
+		if a == nil {
+			continue
+		}
+		for _, x := range arithLeaves(a) {
+			if p, ok := x.(*ssa.Parameter); ok && p.Parent() == g && isIntKind(p.Type()) {
+				return engine.ParamIndex(g, p)
+			}
+		}
+	}
+	return -1
+}
+
+func helperBatchParamDirect(g *ssa.Function, chk string) int {
 	for _, cs := range engine.Calls(g) {
 		if cs.Instr.Parent() != g || !isLimitCheck(cs, chk) {
 			continue
